@@ -413,7 +413,14 @@ def dtype_from_element(value: tp.Optional[tp.Hashable]) -> np.dtype:
     if isinstance(value, tuple):
         return DTYPE_OBJECT
     if hasattr(value, 'dtype'):
-        return value.dtype #type: ignore
+        dtype = value.dtype #type: ignore
+        if dtype.__class__ is np.dtype or isinstance(dtype, np.dtype):
+            return dtype
+        # a class that defines a dtype attribute (np.ndarray, Series) is an object element
+        return DTYPE_OBJECT
+    if isinstance(value, (range, frozenset)):
+        # a sized hashable is held as an object, not expanded into an array
+        return DTYPE_OBJECT
     # NOTE: calling array and getting dtype on np.nan is faster than combining isinstance, isnan calls
     return np.array(value).dtype
 
